@@ -19,9 +19,13 @@ CLAIMS = {
               "uniqueness of generated ids (probabilistic), interleavings inside net/http, that ReverseProxy writes the backend's answer to the forwarder it is given.", "DESIGN.md section 4 C01"),
  "C02": claim("Proof for all header maps that the proxy hands the client request to the pending table with exactly its hop-by-hop fields (RFC 7230 list, written in the contract) removed and every other field value, method, URL, Host and body reference untouched (map-range loop invariant with deletion during iteration), that the fetch handler does not modify the pending request (frame), and that the agent changes only the user-id / Authorization fields before the handler chain.",
               "the four library (de)serialisations (Request.Write, http.ReadRequest, ReverseProxy, net/http server) and hence byte-exact bodies; header keys from net/http are assumed canonical.", "DESIGN.md section 4 C02"),
+ "C03": claim("Proof on the response path's own code: the streaming response writer commits exactly once with the final status (1xx ignored), hands over a header map holding exactly the end-to-end fields of the handler's map (RFC hop-by-hop names removed, same number of values per field, each value copied by position in order), pre-declares exactly the non-hop-by-hop field names listed in comma-separated Trailer values (nested loop invariants), passes body chunks to the pipe unchanged, signals end-of-body once and only after trailer collection with no hop-by-hop trailer; the stand-alone proxy relays the status of the response received on the request's own channel.",
+              "Response.Write / ReadResponse / ReverseProxy / h2c (trusted), element-wise equality of copied values is carried by the per-Add monitor plus the trusted Header.Add semantics rather than by a quantified postcondition, the proxy's header/trailer copy loops (not yet under contract), timing between the handler and serialising goroutines.", "DESIGN.md section 4 C03"),
+ "C05": claim("Safety core of a liveness property, proved: each body chunk is handed to the pipe in the same Write call (exactly one pipe write with the same slice), the buffered read-seeker performs exactly one source read per call and returns everything it read, the response is offered to the serialiser inside WriteHeader.",
+              "the liveness itself (bounded time, progress), ReverseProxy's flush loop and net/http's chunked writer, the reverse proxy's flush interval (hostProxy not yet under contract).", "DESIGN.md section 4 C05"),
  "C04": claim("Proof over all histories of pending-list replies (loop invariant over ghost spawn counts and an abstract LRU view): an id is spawned at most once until the LRU evicts it; fetch, callback and backend hand-off happen exactly once per worker; the proxy enqueues each id once and a poller's reply is exactly the ids it received, in order.",
               "the groupcache LRU implementation (trusted abstract spec, eviction only on overflow), channel FIFO/exactly-once delivery (Go primitive), schedules of concurrent pollers.", "DESIGN.md section 4 C04"),
- "C06": claim("Deductive proof, for all buffer sizes, read sizes and stream contents, that the replay buffer's Read/Seek keep the abstract-stream invariant (bytes returned are the wrapped reader's stream from the logical position, no gap or duplicate; Seek succeeds only while everything consumed is still replayable).",
+ "C06": claim("Deductive proof, for all buffer sizes, read sizes and stream contents, that the replay buffer's Read/Seek keep the abstract-stream invariant (bytes returned are the wrapped reader's stream from the logical position, no gap or duplicate; Seek succeeds only while everything consumed is still replayable); the retry loop makes at most three attempts, each starting at the first byte of the stream with the ids of this response, and stops on a failed seek. Known finding (listed, genuine, reproduced on the real code): the body is rewound while the previous attempt's transport may still be reading it.",
               "the transport's use of the body between attempts (extern: io.Reader protocol), timing of the previous attempt's reader.", "DESIGN.md section 4 C06"),
  "C08": claim("Full proof over the whole uint range (64-bit wrap-around exact, float64 rounding modelled, jitter in [0,1)): the delay is >= 1 ns and within 0.9..1.1 of min(2^n ms, 3 s) (+-2 ns), no shift >= 64 and no overflow; the polling loop sleeps exactly that delay after every failed list call before the next one, counts consecutive failures and resets on success (ghost monitors + loop invariants).",
               "that time.Sleep sleeps; the distribution of the jitter; a counter wrap after 2^64 consecutive failures.", "DESIGN.md section 4 C08"),
